@@ -3,7 +3,7 @@ import ast
 
 from ..core import AnalysisError, dotted, walk_no_nested, FuncTypes
 from ..cfg import CFG, cond_guards
-from ..util import calls_in, local_defs, depends_on, const_val, if_chain, names_in, param_names
+from ..util import tv_eval, calls_in, local_defs, depends_on, const_val, if_chain, names_in, param_names
 from ..schema import NbSchema
 from .. import facts
 
@@ -39,7 +39,7 @@ def ignore_table(ctx):
     return fn, params, table
 
 
-def run(ctx):
+def _run_base(ctx):
     repo, cg = ctx.repo, ctx.cg
     ctx.rule('R14.1', 'category table covers exactly the schema occurrences of each category\'s field; key-filtered names are schema leaves', floor=6)
     ctx.rule('R14.2', 'flags are wired to the parameters of the same name (positional agreement), and the flag set equals diff_ignorables', floor=2)
@@ -224,3 +224,86 @@ def _applicable_alternatives(sch, own_path, fn, call, repo):
                     keep.append(a)
             alts = keep
     return alts
+
+
+def _tv_and(vals):
+    if any(v is False for v in vals):
+        return False
+    return True if all(v is True for v in vals) else None
+
+
+def _tv_or(vals):
+    if any(v is True for v in vals):
+        return True
+    return False if all(v is False for v in vals) else None
+
+
+def run(ctx):
+    """R14.5: an ignore installed for a whole path is *consulted*.
+
+    set_notebook_diff_ignores stores `diff_ignore` under the path in the differ table; that only hides the category if the
+    differ of the parent object looks the table up for that key.  diff_dicts does so under a guard; the guard is evaluated
+    here, three-valued, for every whole-path entry of the category table with: the JSON types nbformat's schema admits at
+    the path, the `atomic_paths` literal of notebook_config, and the fallback of DiffConfig.is_atomic."""
+    ctx.rule('R14.5', 'every path a category is ignored at as a whole is looked up in the differ table by its parent differ, '
+             'for every JSON type the schema admits there (atomic paths included)', floor=6)
+    _run_base(ctx)
+    repo = ctx.repo
+    fn, params, table = ignore_table(ctx)
+    sch = NbSchema(5)
+    # atomic_paths literal of notebook_config
+    nc = repo.module_assign(NB, 'notebook_config')
+    atomic = {}
+    if isinstance(nc, ast.Call):
+        for k in nc.keywords:
+            if k.arg == 'atomic_paths' and isinstance(k.value, ast.Dict):
+                atomic = {const_val(a): const_val(b) for a, b in zip(k.value.keys, k.value.values)}
+    # fallback of is_atomic
+    ia = repo.func('nbdime.diffing.config:DiffConfig.is_atomic')
+    nonatomic_types = set()
+    for c in calls_in(ia):
+        if isinstance(c.func, ast.Name) and c.func.id == 'isinstance' and len(c.args) == 2 and isinstance(c.args[1], ast.Tuple):
+            nonatomic_types = {ast.unparse(e) for e in c.args[1].elts}
+    if not nonatomic_types:
+        raise AnalysisError('DiffConfig.is_atomic: isinstance fallback not found')
+    json_of = {'str': 'string', 'list': 'array', 'dict': 'object'}
+    nonatomic_json = {json_of[t] for t in nonatomic_types if t in json_of}
+    GEN = 'nbdime.diffing.generic'
+    dd = repo.func(GEN + ':diff_dicts')
+    g = CFG(dd)
+    lookups = [n for n in walk_no_nested(dd) if isinstance(n, ast.Subscript) and isinstance(n.ctx, ast.Load) and
+               isinstance(n.value, ast.Attribute) and n.value.attr == 'differs']
+    if not lookups:
+        raise AnalysisError('diff_dicts: lookup of config.differs[...] not found')
+    st = repo.stmt_of(lookups[0])
+    guards = cond_guards(g, st)
+
+    ddefs = local_defs(dd)
+
+    def ev(e, is_atomic):
+        def leaf(x):
+            if isinstance(x, ast.Call) and isinstance(x.func, ast.Attribute) and x.func.attr == 'is_atomic':
+                return is_atomic
+            if isinstance(x, ast.Compare) and len(x.ops) == 1:
+                l, r = ast.unparse(x.left), ast.unparse(x.comparators[0])
+                if isinstance(x.ops[0], (ast.Is, ast.Eq)) and l.startswith('type(') and r.startswith('type('):
+                    return True         # both sides hold the same schema type at this path
+                if isinstance(x.ops[0], ast.In) and r.endswith('.differs'):
+                    return True         # the ignore has been installed for this path
+                if isinstance(x.ops[0], ast.NotIn) and r.endswith('.differs'):
+                    return False
+            return None
+        return tv_eval(e, leaf, ddefs)
+    for path, (cat, kind, keys, node) in sorted(table.items()):
+        if kind != 'whole':
+            continue
+        types = sorted(t for t in sch.types_at(path) if t != 'null') or ['?']
+        for t in types:
+            is_atomic = atomic[path] if path in atomic else (t not in nonatomic_json)
+            verdicts = [ev(test, is_atomic) if pol else (lambda v: None if v is None else (not v))(ev(test, is_atomic)) for test, pol in guards]
+            ok = not any(v is False for v in verdicts) and any(v is True for v in verdicts)
+            ctx.inst('R14.5', GEN + ':diff_dicts', 'ignore at %s (category %s, schema type %s, atomic=%s)' % (path, cat, t, is_atomic), ok,
+                     'the differ table is consulted for this key: the installed ignore takes effect' if ok else
+                     'values at %s are atomic for the differ (%s), so diff_dicts never looks the path up in the differ table: ignoring %s has no effect '
+                     'and two notebooks differing only there still produce a diff' % (
+                         path, 'atomic_paths entry' if path in atomic else 'type %s' % t, cat), st)
